@@ -1,6 +1,9 @@
 #!/bin/bash
 # Sanitizer / interpreter lanes attached to a property and tier (called by ./check after the
 # main workload held).  A lane report is a violation of the property whose workload produced it.
+#   every property but C20, both tiers -> "relprofile": the same workload (reduced) on the harness
+#             built the way a consumer's --release build is (no debug assertions, wrapping
+#             arithmetic): code under cfg(not(debug_assertions)) and silent wrap-around only exist there
 #   quick:    C05, C06            -> valgrind memcheck on the optimized harness (reduced workload)
 #   thorough: C01, C05, C06       -> ASan with libbz2 itself instrumented (+ valgrind for C05/C06)
 #             C02, C04, C07, C10  -> Miri on the pure-Rust decode/model paths
@@ -13,10 +16,12 @@ export CARGO_NET_OFFLINE=true
 
 lanes=()
 case "$TIER:$PROP" in
-  quick:C05|quick:C06) lanes=(valgrind) ;;
-  thorough:C05|thorough:C06) lanes=(valgrind asan) ;;
-  thorough:C01) lanes=(asan) ;;
-  thorough:C02|thorough:C04|thorough:C07|thorough:C10) lanes=(miri) ;;
+  quick:C05|quick:C06) lanes=(valgrind relprofile) ;;
+  thorough:C05|thorough:C06) lanes=(valgrind asan relprofile) ;;
+  thorough:C01) lanes=(asan relprofile) ;;
+  thorough:C02|thorough:C04|thorough:C07|thorough:C10) lanes=(miri relprofile) ;;
+  quick:C20|thorough:C20) lanes=() ;;
+  *) lanes=(relprofile) ;;
 esac
 [ ${#lanes[@]} -eq 0 ] && exit 0
 [ "${VERIF_NO_LANES:-0}" = "1" ] && exit 0
@@ -85,6 +90,33 @@ for lane in "${lanes[@]}"; do
       else STATUS=clean; fi
       echo "observed: lane=asan+instrumented-libbz2 property=$PROP inputs=$INPUTS reports=$REPORTS libbz2_asan_symbols=$INSTR"
       note "asan+libbz2(asan symbols in libbz2.a: $INSTR)" "$INPUTS" "$REPORTS" "$(echo "$(date +%s.%N) - $T0" | bc)" "$CMD" "$STATUS"
+      ;;
+    relprofile)
+      LOG="$OUT/relprofile.log"; mkdir -p "$OUT/rel-evidence"
+      ( cd "$ROOT/harness" && cargo build --profile relwrap --offline ) > "$OUT/relprofile-build.log" 2>&1
+      if [ $? -ne 0 ]; then
+        echo "INCONCLUSIVE: property=$PROP release-profile build of the harness failed (see $OUT/relprofile-build.log)"; RC=2
+        note release-profile 0 0 0 "build" inconclusive; continue
+      fi
+      BIN="$ROOT/harness/target/relwrap/nxverif"
+      DIV=4; [ "$TIER" = "thorough" ] && DIV=8
+      CMD="VERIF_CASES_DIV=$DIV $BIN $PROP $TIER   # [profile.relwrap]: debug-assertions=false, overflow-checks=false"
+      VERIF_CASES_DIV=$DIV VERIF_EVIDENCE_DIR="$OUT/rel-evidence" VERIF_REPLAY_DIR="$OUT" "$BIN" "$PROP" "$TIER" > "$LOG" 2>&1
+      LRC=$?
+      INPUTS=$(evals_of "$OUT/rel-evidence/$PROP.json")
+      REPORTS=$(grep -c '^VIOLATION' "$LOG")
+      if [ $LRC -eq 1 ] || [ "$REPORTS" != "0" ]; then
+        grep -E '^(violation-detail|VIOLATION)' "$LOG" | sed 's/^violation-detail: \[/violation-detail: [release profile: /' | head -12
+        RC=1; STATUS=violation
+      elif [ $LRC -ne 0 ]; then
+        case $LRC in
+          132|134|136|139) echo "violation-detail: [release profile: process crashed with exit status $LRC while running the $PROP workload] $(tail -3 "$LOG" | tr '\n' ' ')"
+               echo "VIOLATION property=$PROP replay=$LOG"; RC=1; STATUS=crash ;;
+          *) echo "INCONCLUSIVE: property=$PROP release-profile lane exited $LRC (see $LOG)"; grep -E '^(INCONCLUSIVE|HARNESS)' "$LOG" | head -3; RC=2; STATUS=inconclusive ;;
+        esac
+      else STATUS=clean; fi
+      echo "observed: lane=release-profile property=$PROP inputs=$INPUTS reports=$REPORTS"
+      note "release-profile(no debug assertions, wrapping arithmetic)" "$INPUTS" "$REPORTS" "$(echo "$(date +%s.%N) - $T0" | bc)" "$CMD" "$STATUS"
       ;;
     miri)
       L=$(echo "$PROP" | tr A-Z a-z)
